@@ -36,7 +36,7 @@ def parse(glob: str) -> Optional[list]:
     return units
 
 
-def build(glob: str, wide: bool) -> Optional[NFA]:
+def build(glob: str, wide: bool, unescaped_slash_only: bool = False) -> Optional[NFA]:
     units = parse(glob)
     if units is None:
         return None
@@ -51,7 +51,7 @@ def build(glob: str, wide: bool) -> Optional[NFA]:
             frags.append(b.star(b.atom(("notlit", "/"))))
         else:
             seg_start = k == 0 or (units[k - 1][0] == "lit" and units[k - 1][1] == "/")
-            nxt_slash = k + 1 < len(units) and units[k + 1][0] == "lit" and units[k + 1][1] == "/"
+            nxt_slash = k + 1 < len(units) and units[k + 1][0] == "lit" and units[k + 1][1] == "/" and not (unescaped_slash_only and units[k + 1][2])
             if wide and seg_start and nxt_slash:
                 frags.append(b.opt(b.cat([b.star(b.atom(("all",))), b.atom(("lit", "/"))])))
                 k += 2
@@ -63,12 +63,12 @@ def build(glob: str, wide: bool) -> Optional[NFA]:
     return nfa
 
 
-def build_alt(globs: list[str], wide: bool) -> Optional[NFA]:
+def build_alt(globs: list[str], wide: bool, unescaped_slash_only: bool = False) -> Optional[NFA]:
     """Union of several globs (one annotation with a list of paths)."""
     b = Builder()
     frags = []
     for g in globs:
-        sub = build(g, wide)
+        sub = build(g, wide, unescaped_slash_only)
         if sub is None:
             return None
         # re-embed sub-NFA into b
